@@ -1228,3 +1228,49 @@ def rule_typenames_are_keys(ctx, rep: Report, rid="P3"):
                                 f"the instantiator special-cases the identifier {s.value!r}: a template parameter "
                                 f"or type with that spelling is treated differently from any other",
                                 f"{mi.rel}:{c.lineno}")
+
+
+def rule_template_argument_identity(ctx, rep: Report, rid="S8"):
+    """instantiate_type substitutes the template arguments of a TemplatedType by renaming the Typename objects held in
+    `ctype.typename.instantiations`, while the type is *printed* (to_cpp) from `template_params`.  The substitution
+    reaches the printed text only because TemplatedType.__init__ puts the very Typename objects of its template_params
+    into typename.instantiations.  Copies there (deepcopy, a rebuilt Typename) cut that link: `std::vector<T>` keeps
+    its `T` in every emitted signature although the instantiation 'succeeded'."""
+    prog = ctx.prog
+    ci = prog.cls("TemplatedType")
+    init = prog.method("TemplatedType", "__init__")
+    to_cpp = prog.method("TemplatedType", "to_cpp")
+    it = prog.func(f"{TI}/helpers.py", "instantiate_type")
+    prints_params = any(isinstance(x, ast.Attribute) and x.attr == "template_params" for x in ast.walk(to_cpp))
+    edits_insts = any(isinstance(x, ast.Attribute) and x.attr == "instantiations" for x in ast.walk(it)) and \
+        any(isinstance(x, ast.Attribute) and isinstance(x.ctx, ast.Store) and x.attr == "name" for x in ast.walk(it))
+    params = func_params(init)
+    tp = next((p for p in params if "param" in p), params[2] if len(params) > 2 else None)
+    # the list handed to Typename(..., <instantiations>)
+    ctor = next((c for c in walk_no_nested(init) if isinstance(c, ast.Call) and prog.resolve_class(c.func, ci.mod) is prog.cls("Typename")), None)
+    shared, detail = False, "Typename(...) construction not found"
+    if ctor is not None:
+        tinit = prog.method("Typename", "__init__")
+        b = bind_call(tinit, ctor, drop_self=True)
+        arg = b.get(func_params(tinit)[2]) if len(func_params(tinit)) > 2 else None
+        vals = []
+        if isinstance(arg, ast.Name):
+            vals = [st.value for st in walk_no_nested(init) if isinstance(st, ast.Assign) and len(st.targets) == 1
+                    and isinstance(st.targets[0], ast.Name) and st.targets[0].id == arg.id]
+        elif arg is not None:
+            vals = [arg]
+        detail = f"instantiations <- {[unparse(v)[:60] for v in vals]}"
+        ok_vals = []
+        for v in vals:
+            if isinstance(v, (ast.ListComp, ast.GeneratorExp)) and len(v.generators) == 1 and not v.generators[0].ifs \
+                    and unparse(v.generators[0].iter) == tp and isinstance(v.generators[0].target, ast.Name):
+                ev = v.generators[0].target.id
+                ok_vals.append(isinstance(v.elt, ast.Attribute) and isinstance(v.elt.value, ast.Name) and v.elt.value.id == ev and v.elt.attr == "typename")
+            else:
+                ok_vals.append(False)
+        shared = bool(vals) and all(ok_vals)
+    needed = prints_params and edits_insts
+    rep.add(rid, "TemplatedType:typename.instantiations holds the same Typename objects as template_params (substitution reaches the printed type)",
+            shared or not needed, detail + ("" if shared else "; to_cpp prints template_params while instantiate_type renames the objects in "
+                                           "typename.instantiations: with copies the two no longer coincide and nested template parameters stay "
+                                           "unsubstituted in the emitted C++"), f"{ci.mod.rel}:{init.lineno}", nontrivial=needed)
